@@ -115,5 +115,7 @@ static inline bool TV(find_post)(TV_C o, const TV_C *n, uint64_t k, cstl_tp now,
     return ok.has ? TV(tdel_all)(o, n, k, g) /* expired: removed on the spot */ : TV(noop_all)(o, n, k, g);
 }
 /* time arithmetic of the public entry points */
-static inline bool TV(ttl_ok)(cstl_tp now, cstl_ms ttl) { return ttl >= 0 && ttl <= (INT64_MAX / 1000000) && now >= 0 && now <= INT64_MAX - ttl * 1000000; }
-static inline cstl_tp TV(deadline)(cstl_tp now, cstl_ms ttl) { return now + ttl * 1000000; }
+/* "TTL representable on the clock": 0 <= ttl, convertible, and now + ttl does not overflow the 64-bit
+ * nanosecond clock.  ttl == G_MS ties the call's TTL to the abstracted conversion (cstl.h). */
+static inline bool TV(ttl_ok)(cstl_tp now, cstl_ms ttl) { return ttl == G_MS && ttl >= 0 && ttl <= INT64_MAX / 1000000 && now >= 0 && now <= INT64_MAX - cstl_ms_to_ns(ttl); }
+static inline cstl_tp TV(deadline)(cstl_tp now, cstl_ms ttl) { return now + cstl_ms_to_ns(ttl); }
